@@ -34,18 +34,29 @@ for s in seeds:
         if not req or req.startswith("locks "):
             continue
         grp = ["# from seeded/%s" % s]
-        if req.startswith("zone "):
+        pfx = ""
+        bare = req
+        while bare.startswith("@"):
+            tok, _, bare = bare.partition(" ")
+            pfx += tok + " "
+        header = None
+        if bare.startswith("zone "):
             zn = re.search(r"zone=(\S+)", d.get("observed", ""))
             if not zn:
                 continue
             ex = sh("echo 'zone export %s' | %s/build/oracle 2>/dev/null" % (zn.group(1), V)).stdout.strip().split("\n")[-1]
             off0, body = ex.split(" ")
-            grp.append("zone set %s %s %s" % (zn.group(1), off0, body))
+            header = pfx + "zone set %s %s %s" % (zn.group(1), off0, body)
+            grp.append(header)
         # a failure that depends on the requests before it (state left over from earlier calls): keep the
-        # last few of them in front, in order
+        # last few of them in front, in order (for the stateful zone protocol: after the `zone set` header)
         pre = d.get("preceding_requests_file")
-        if pre and os.path.exists(pre) and not req.startswith("zone "):
+        if pre and os.path.exists(pre):
             lines = [l for l in open(pre).read().split("\n") if l.strip()]
+            if header:
+                # only what was asked since the zone was set
+                k = max([i for i, l in enumerate(lines) if " zone set " in " " + l] + [-1])
+                lines = lines[k + 1:]
             grp += lines[-6:]
         grp.append(req)
         out.setdefault(p, []).append("\n".join(grp))
